@@ -121,17 +121,14 @@ func simshPath() string {
 	return filepath.Join(filepath.Dir(exe), "simsh")
 }
 
-var devNull *os.File
-
+// nullFile returns a fresh handle on /dev/null: a real *os.File, so that os/exec starts no
+// stdin copier goroutine for children, and fresh because the interpreter closes its input.
 func nullFile() *os.File {
-	if devNull == nil {
-		f, err := os.Open("/dev/null")
-		if err != nil {
-			core.Fatal("open /dev/null: %v", err)
-		}
-		devNull = f
+	f, err := os.Open("/dev/null")
+	if err != nil {
+		core.Fatal("open /dev/null: %v", err)
 	}
-	return devNull
+	return f
 }
 
 // compositions calls f with every composition (ordered list of positive parts) of n.
